@@ -856,6 +856,14 @@ fn should_do_dollar_command_extension(line: &str) -> bool {
     !libs::re::re_contains(line, r"='.*\$\([^\)]+\).*'$")
 }
 
+/// Only the standard output of a substituted command is spliced in: what
+/// it wrote to stderr (captured along with it) goes to the shell's stderr.
+fn show_captured_stderr(cr: &types::CommandResult) {
+    if !cr.stderr.is_empty() {
+        println_stderr!("{}", cr.stderr.trim_end_matches('\n'));
+    }
+}
+
 fn do_command_substitution_for_dollar(sh: &mut Shell, tokens: &mut types::Tokens) {
     let mut idx: usize = 0;
     let mut buff: HashMap<usize, String> = HashMap::new();
@@ -910,6 +918,7 @@ fn do_command_substitution_for_dollar(sh: &mut Shell, tokens: &mut types::Tokens
                 }
             };
 
+            show_captured_stderr(&cmd_result);
             let output_txt = cmd_result.stdout.trim_end_matches('\n');
 
             let re;
@@ -964,6 +973,7 @@ fn do_command_substitution_for_dot(sh: &mut Shell, tokens: &mut types::Tokens) {
                 }
             };
 
+            show_captured_stderr(&cr);
             new_token = cr.stdout.trim_end_matches('\n').to_string();
         } else if sep == "\"" || sep.is_empty() {
             let re;
@@ -1012,6 +1022,7 @@ fn do_command_substitution_for_dot(sh: &mut Shell, tokens: &mut types::Tokens) {
                         }
                     };
 
+                    show_captured_stderr(&cr);
                     _output = cr.stdout.trim_end_matches('\n').to_string();
                 }
                 _item = format!("{}{}{}", _item, _head, _output);
